@@ -6,3 +6,6 @@ use vstd::std_specs::ops::*;
 use vstd::std_specs::cmp::*;
 use core::cmp::Ordering;
 verus! {
+// trusted: documented behaviour of Ordering::reverse (so that `a.cmp(b).reverse()` stays inside the verifiable subset)
+pub open spec fn ord_rev(o: Ordering) -> Ordering { match o { Ordering::Less => Ordering::Greater, Ordering::Equal => Ordering::Equal, Ordering::Greater => Ordering::Less } }
+pub assume_specification[ Ordering::reverse ](o: Ordering) -> (r: Ordering) ensures r == ord_rev(o);
